@@ -80,7 +80,7 @@ func TestC04(t *testing.T) {
 		State:    gen.StateCfg{D: gen.Small, Second: true, JSON: true, Top: true},
 		MinRules: 1, MaxRules: 4, MinHot: 3, MaxHot: 7, MaxActions: 6, ExprDepth: 2, ConvWrites: true,
 	}
-	cfg := rsGenCfg{Rules: rc, Vary: true, Rejected: true, GRB: true, MaxCycle: func(rt *rapid.T) uint64 { return uint64(rapid.IntRange(1, 6).Draw(rt, "maxcycle")) }}
+	cfg := rsGenCfg{Rules: rc, Vary: true, Rejected: true, GRB: true, RemovedSibling: true, MaxCycle: func(rt *rapid.T) uint64 { return uint64(rapid.IntRange(1, 6).Draw(rt, "maxcycle")) }}
 	check(t, 0, budget(6000, 80000), func(rt *rapid.T) {
 		c, rs := genRSCase(rt, cfg)
 		maybeUsedBefore(rt, c, rs, cfg.Rules.State)
